@@ -315,7 +315,7 @@ def random_case(rng, name=None, cap=26):
     return show_name(arity, links, final, mode) + "|" + show_ops(ops)
 
 
-# 8 fixed names; for each a prefix building a 3-object tree along the name and the
+# 10 fixed names (the last two with value-equality nodes); for each a prefix building a 3-object tree along the name and the
 # alphabet of the exhaustive histories (every op kind on every object of the tree).
 EXH = [
     ("4 c. c. v", "sc 0 1;sc 1 1"),
